@@ -338,6 +338,50 @@ Theorem C16_bayer_frame_not_tiled_refused :
 Proof. exact bayer_frame_not_tiled_refused. Qed.
 Print Assumptions C16_bayer_frame_not_tiled_refused.
 
+(* oversample = 0 and the empty pattern string ('' is ACCEPTED by format_bayer_string: a 0 x 0 pattern): once the
+   efficiencies and the pattern have passed, the call ends in ZeroDivisionError (both channel tuple and flattened) *)
+Theorem C16_bayer_zero_division :
+  forall (img : imgrep QcS) (wv : list Qc) (u : Spectrum.wunit) (qr qg qb : qeany) (vr vg vb : vec QcS)
+         (pat : list Z) (p : pattern) (os : Z),
+  qe_asarray_any qr wv u = Ok vr -> qe_asarray_any qg wv u = Ok vg -> qe_asarray_any qb wv u = Ok vb ->
+  format_bayer pat = Ok p -> (os = 0 \/ pk p = 0) ->
+  collect_charge_bayer_channels_entry img wv u qr qg qb pat os = RaisedZeroDivision /\
+  collect_charge_bayer_entry img wv u qr qg qb pat os = RaisedZeroDivision.
+Proof. exact bayer_entry_zero_division. Qed.
+Print Assumptions C16_bayer_zero_division.
+
+Theorem C16_format_bayer_empty_string_accepted : exists p, format_bayer [] = Ok p /\ pk p = 0.
+Proof. exact format_bayer_empty. Qed.
+Print Assumptions C16_format_bayer_empty_string_accepted.
+
+(* a negative oversample gives negative repetition counts: ValueError *)
+Theorem C16_bayer_negative_oversample_refused :
+  forall (img : imgrep QcS) (wv : list Qc) (u : Spectrum.wunit) (qr qg qb : qeany) (vr vg vb : vec QcS)
+         (pat : list Z) (p : pattern) (os : Z),
+  qe_asarray_any qr wv u = Ok vr -> qe_asarray_any qg wv u = Ok vg -> qe_asarray_any qb wv u = Ok vb ->
+  format_bayer pat = Ok p -> pk p <> 0 -> os < 0 ->
+  collect_charge_bayer_channels_entry img wv u qr qg qb pat os = Raised ValueError.
+Proof. exact bayer_entry_negative_oversample. Qed.
+Print Assumptions C16_bayer_negative_oversample_refused.
+
+(* everywhere else the call is the model of (b)/(e): what must not change *)
+Theorem C16_bayer_entry_is_the_model :
+  forall (img : imgrep QcS) (wv : list Qc) (u : Spectrum.wunit) (qr qg qb : qeany) (pat : list Z) (os : Z),
+  (forall p, format_bayer pat = Ok p -> os <> 0 /\ pk p <> 0) ->
+  collect_charge_bayer_channels_entry img wv u qr qg qb pat os
+  = lift (collect_charge_bayer_channels_any img wv u qr qg qb pat os).
+Proof. exact bayer_entry_regular. Qed.
+Print Assumptions C16_bayer_entry_is_the_model.
+
+Example C16_zero_division_nonvacuous :
+  let c := @mkCube QcS 1 2 2 (fun _ i j => Q2Qc (inject_Z (i + j))) in
+  let q := QEplain (@QScalar QcS (Q2Qc 1)) in
+  collect_charge_bayer_entry (Img3 c) [Q2Qc 500] Spectrum.UNm q q q [0; 1; 1; 2] 0 = RaisedZeroDivision /\
+  collect_charge_bayer_entry (Img3 c) [Q2Qc 500] Spectrum.UNm q q q [] 1 = RaisedZeroDivision /\
+  collect_charge_bayer_entry (Img3 c) [Q2Qc 500] Spectrum.UNm q q q [0; 1; 1; 2] (-1) = Raised ValueError /\
+  collect_charge_bayer_entry (Img3 c) [Q2Qc 500] Spectrum.UNm q q q [0; 1; 9; 2] 0 = Raised ValueError.
+Proof. repeat split. Qed.
+
 (* non-vacuity of (e): an efficiency tabulated at 1/2, 3/4, 1 um, a two-pixel cube at 500, 750, 1000 nm:
    well-formed, on the cube's wavelengths, pixel (0,1) collects 4/4 + 5/2 + 6*1 *)
 Example C16_spectrum_nonvacuous :
